@@ -20,6 +20,10 @@ static int g_type;
 
 static void f_reduce_pub(PP* o, const lp_polynomial_t* a, const lp_polynomial_t* b) { lp_polynomial_reduce(a, b, o[0], o[1], o[2]); }
 static void f_reduce_int(PP* o, const lp_polynomial_t* a, const lp_polynomial_t* b) {
+  /* the internal entry point expects operands (and outputs) laid out for the current order: bring external ones there
+     through public calls first (VERIF_STALE=1 hands out external polynomials built under another order) */
+  (void) lp_polynomial_top_variable(a); (void) lp_polynomial_top_variable(b);
+  for (int i = 0; i < 3; ++i) (void) lp_polynomial_top_variable(o[i]);
   coefficient_reduce(pio_ctx, &a->data, &b->data, &o[0]->data, &o[1]->data, &o[2]->data, (remaindering_type_t) g_type);
 }
 static void f_div(PP* o, const lp_polynomial_t* a, const lp_polynomial_t* b) { lp_polynomial_div(o[0], a, b); }
